@@ -24,7 +24,7 @@ META = {
               'effect may reach memory aliasing a parameter or stored field (set_snr excepted); no global/class-attribute writes; lazily set trainer attributes follow the '
               '`is None` + assert protocol; random numbers only when initialization is None; a cACGMM fit continued from a model starts with the E-step and has all M-step inputs assigned. '
               'Decides necessary conditions, not bit-exact reproducibility. '
-              'Also: the dimension a stateful trainer remembers / compares is the last axis of the observation.',
+              'Also: the dimension a stateful trainer remembers / compares is the last axis of the observation. Also: an array returned by an lru_cache / cache function is storage shared between calls: no in-place effect reaches it.',
         note='Trusted: numpy view/copy table; results of unmodelled library calls may alias any argument (reported as unresolved, never as a violation). Cython variants not analysed.',
         design='DESIGN.md section 3 (C20)'),
     'C02': dict(
@@ -32,14 +32,14 @@ META = {
         level='Necessary conditions of monotone EM are decided: the reported log-likelihood includes the stored weights and is a class-axis log-sum of the component log-pdf; '
               'in the three cACG-based trainers the surrogate weight and the posterior stem from the same E-step call per iteration (aligner applied to both, ones at the start); '
               'weight and component updates use the same saliency-weighted affiliation; the E-step uses the model\'s own weights; Gaussian/cACG densities have the right structure. '
-              'Monotonicity along trajectories (a numerical statement) is NOT decided.',
+              'Monotonicity along trajectories (a numerical statement) is NOT decided. Also: no parameter is assigned to an existing model instance whose __post_init__ cached quantities of the old one (R-FROZEN).',
         note='Trusted: MM derivation of the cACG update, class axis -2. Shares rule instances with C01, C07, C08.',
         design='DESIGN.md section 3 (C02)'),
     'C03': dict(
         technique='static analysis: einsum contraction-structure rules, eigenpair-selection direction (R-SEL), signed-term linearisation of log_pdf (R-LIN)',
         level='The orientation conditions whose inversion destroys the class ranking while keeping shapes are decided: reciprocal eigenvalues and U diag U^H structure of the cACG '
               'quadratic form, principal (last) eigh eigenpair on the eigenvector column axis, signs of concentration / normaliser / determinant terms, row-index whitening, '
-              'exponent-weighted additive streams. The fixed-point behaviour itself is not decided.',
+              'exponent-weighted additive streams. The fixed-point behaviour itself is not decided. Also: a loop over the extent of a matrix stack uses its index (the partial scipy solver of get_pca does not and is dormant: off by default, never switched on in the package).',
         note='Trusted: numpy.linalg.eigh ascending order, scikit-learn precision Cholesky contract, density definitions.',
         design='DESIGN.md section 3 (C03)'),
     'C07': dict(
@@ -80,7 +80,7 @@ META = {
         level='eigh(target, noise) argument order, arg-max eigenvalue column / last pair of the ascending eigh, outer products with the conjugate on the second factor rescaled by '
               'tr(Phi)/tr(a a^H), Phi_nn w contracting the column index, both BAN chains and the (..., 1)-shaped absolute gain. Maximality of Rayleigh quotients is NOT decided; '
               'Cython variants are not analysed. '
-              'Also: BAN gain = sqrt(two-factor form) / magnitude of the one-factor form, in either operand order, np.divide(where=) or masked assignment. Also: the option string \'trace\' / \'eigenvalue\' selects the gain of that name.',
+              'Also: BAN gain = sqrt(two-factor form) / magnitude of the one-factor form, in either operand order, np.divide(where=) or masked assignment. Also: the option string \'trace\' / \'eigenvalue\' selects the gain of that name. Also: a transposed Cholesky / eigenvector factor used as the coefficient of a solver carries a conjugation (R-HERM).',
         note='Trusted: scipy.linalg.eigh(a, b) convention, numpy eigh ordering.',
         design='DESIGN.md section 3 (C12)'),
     'C13': dict(
@@ -142,7 +142,7 @@ META = {
         technique='static analysis: axis-parametricity rule, form rules on term graphs, integer typing of shape arithmetic, may-alias in-place analysis',
         level='Every axis-consuming call in the 9 mask functions takes its axis from a parameter (literals only on the restored 2-D working array); binary / ratio / amplitude / phase-sensitive / '
               'complex masks have their defining form with the sum over source_axis; eps defaults are positive also in single precision; flatten dimensions are integers; quantile direction per sign; no caller mutation. '
-              'Threshold semantics on values and ties are NOT decided. Also: what the quantile mask ranks and compares are magnitudes (no path from the signal avoids abs).',
+              'Threshold semantics on values and ties are NOT decided. Also: what the quantile mask ranks and compares are magnitudes (no path from the signal avoids abs). Also: axes are moved back to the positions named by the caller only on an array of the rank they were given for (not on a stack of results).',
         note='Trusted: mask definitions in the statement; sibling lorenz_mask as reference idiom.',
         design='DESIGN.md section 3 (C18)'),
     'C19': dict(
@@ -150,7 +150,7 @@ META = {
         level='Both SXR functions compute _sxr(S, I+N), _sxr(S, I), _sxr(S, N) with identical S and the first denominator the sum of the others (for the pure ratio _sxr); own-source exclusion; input_sxr pools the sensors in the power domain (operands of _sxr are sensor means under average_channels, dB values are reduced over the source axis only); '
               'complete enumeration + arg-MAX output selection; return_dict True / prefix / False specialisations return dict / dict / tuple for both siblings; si_sdr reduces over -1 only with the '
               'projection form; set_snr exponent. dB values and scaling laws as numbers are NOT decided. '
-              'Also: power helper = mean |X|^2 over the axis parameter, set_snr multiplies the noise by the factor measured with keepdims over the same axis, the captured power is evaluated for every enumerated selection. Also: SDR, SIR and SNR go through the same post-processing after _sxr.',
+              'Also: power helper = mean |X|^2 over the axis parameter, set_snr multiplies the noise by the factor measured with keepdims over the same axis, the captured power is evaluated for every enumerated selection. Also: SDR, SIR and SNR go through the same post-processing after _sxr. Also: the interference is a SUM of the powers of the other sources, not total minus own (cancellation).',
         note='Trusted: metric definitions in the statement.',
         design='DESIGN.md section 3 (C19)'),
 }
